@@ -33,7 +33,8 @@ def name_uses(P, floor_fns=None):
             bty = T.strip_generics(bty)
             if not (bty.endswith("element_parser::Element") or bty.endswith("element_parser::Attribute")):
                 continue
-            yield from _classify_use(b, n, parents, 0)
+            for tup in _classify_use(b, n, parents, 0):
+                yield tup + (n["name"],)
 
 
 def _classify_use(b, n, parents, depth):
@@ -184,13 +185,17 @@ def run(ctx, res):
 
     # ---- R4 name discipline
     counts = {}
-    for (b_, n, cls, detail) in name_uses(P):
+    for (b_, n, cls, detail, origin) in name_uses(P):
         fn_ = fshort(b_)
         counts[cls] = counts.get(cls, 0) + 1
         site = "%s:%s" % (n.get("name") or n["res"]["name"], detail)
         if cls == "banned":
             m = re.search(r"\.(\w+)\((.*)\)$", detail)
-            reviewed = fn_ == "parser::tree" and m and m.group(1) in ("starts_with", "trim_start_matches") and m.group(2) == repr(kw["closing_prefix"])
+            reviewed = fn_.startswith("parser::") and m and m.group(1) in ("starts_with", "trim_start_matches", "strip_prefix") and m.group(2) == repr(kw["closing_prefix"])
+            if fn_.endswith("TimeLimitedEvaluator::is_removal") and origin == "value":
+                # how the `to` value is read is decided by the C05 table, not by the marker/skip property
+                res.holds("C06.R4", fn_, site, "outside C06: the expiry value (C05)")
+                continue
             if reviewed:
                 counts["closing-prefix"] = counts.get("closing-prefix", 0) + 1
                 res.holds("C06.R4", fn_, site, "reviewed: closing-tag prefix operation")
@@ -202,7 +207,7 @@ def run(ctx, res):
             res.holds("C06.R4", fn_, site, "unclassified (not a banned operation)")
         else:
             res.holds("C06.R4", fn_, site)
-    res.floor("C06.R4", "exact comparisons / hash lookups of names", counts.get("eq", 0) + counts.get("lookup", 0), 7)
+    res.floor("C06.R4", "exact comparisons / hash lookups of names", counts.get("eq", 0) + counts.get("lookup", 0), 4)
     res.extra["name_use_classes"] = counts
     res.obligations += sum(counts.values())
     res.discharged += sum(counts.values()) - len([f for f in res.findings if f.rule == "C06.R4"])
